@@ -9,7 +9,7 @@ from typing import Callable, Dict, Iterable, Optional, Tuple, Union
 
 import torch
 from linear_operator import to_dense, to_linear_operator
-from linear_operator.operators import LinearOperator, ZeroLinearOperator
+from linear_operator.operators import LinearOperator, RootLinearOperator, SumLinearOperator, ZeroLinearOperator
 from torch import Tensor
 from torch.nn import ModuleList
 
@@ -641,7 +641,14 @@ class AdditiveKernel(Kernel):
         for kern in self.kernels:
             next_term = kern(x1, x2, diag=diag, **params)
             if not diag:
-                res = res + to_linear_operator(next_term)
+                next_term = to_linear_operator(next_term)
+                if isinstance(next_term, RootLinearOperator) and not isinstance(res, ZeroLinearOperator):
+                    # LinearOperator.__add__ sends a RootLinearOperator summand (e.g. LinearKernel(x, x)) through
+                    # add_low_rank, which factorizes the partial sum only to cache a root decomposition: O(n^3) work,
+                    # and an error whenever the partial sum is not numerically positive definite. Keep the lazy sum.
+                    res = SumLinearOperator(res, next_term)
+                else:
+                    res = res + next_term
             else:
                 res = res + next_term
 
